@@ -1,168 +1,11 @@
 ------------------------------- MODULE Parser -------------------------------
 (***************************************************************************)
-(* The A2L parser as a function of the token sequence, parametric in the   *)
-(* grammar (module Grammar, generated from the frozen DSL).  This is a     *)
-(* transcription of the code-generator templates                           *)
-(* (a2lmacros/src/codegenerator/parser.rs) and of the hand-written helpers *)
-(* in a2lfile/src/parser.rs - not of the 36 000 generated lines.           *)
-(*                                                                         *)
-(* A token is [t, v, line, a]: type, text, line, and lexical attributes    *)
-(* computed independently of the library:                                  *)
-(*    id  : a.digit (starts with a digit), a.long (> 1024 bytes)           *)
-(*    num : a.fits (Seq of the integer types the literal fits), a.float,   *)
-(*          a.val (its value if it is a small non-negative integer, else -1)*)
-(* A parser state is S = [pos, last, diags]: cursor (1-based index of the  *)
-(* next token), last_token_position, diagnostics logged so far.  Rewinding *)
-(* the cursor (sequences, unknown tags, version look-ahead) restores       *)
-(* neither `last` nor `diags`, exactly as in the code.                     *)
-(*                                                                         *)
-(* Every operator returns [ok, S, v] or [ok |-> FALSE, S, e |-> [c, line]].*)
-(* Severity of every diagnostic site (C06):                                *)
-(*    Log(S, d)      error_or_log: hard error in strict mode, else logged  *)
-(*    Warn(S, d)     log_warning : logged in both modes (deprecations)     *)
-(*    Err(S, c)      return Err  : hard error in both modes                *)
+(* The block level of the A2L parser (generate_block_parser_generic and    *)
+(* the taggeditem parser of a2lmacros/src/codegenerator/parser.rs, the     *)
+(* file level of a2lfile/src/parser.rs), on top of the token level         *)
+(* (ParserCore.tla) and of the IF_DATA interpreter (A2ml.tla).             *)
 (***************************************************************************)
-EXTENDS Integers, Sequences, FiniteSets, TLC, Grammar
-
-\* The document under consideration and the parsing mode are state variables (so that one TLC run
-\* can judge many documents); this module defines no behaviour of its own.
-VARIABLES Doc,      \* Seq(token)
-          Strict    \* BOOLEAN
-
-Tok(i) == Doc[i]
-NTok == Len(Doc)
-
-Ok(S, v) == [ok |-> TRUE, S |-> S, v |-> v]
-Err(S, c, line) == [ok |-> FALSE, S |-> S, e |-> [c |-> c, line |-> line]]
-Diag(c, line, tag) == [c |-> c, line |-> line, tag |-> tag]
-\* error_or_log
-Log(S, d) == IF Strict THEN Err(S, d.c, d.line) ELSE Ok([S EXCEPT !.diags = Append(@, d)], TRUE)
-\* log_warning
-Warn(S, d) == [S EXCEPT !.diags = Append(@, d)]
-Deprecations == {"BlockRefDeprecated", "EnumRefDeprecated"}
-
-(***************************************************************************)
-(* token level (parser.rs)                                                 *)
-(***************************************************************************)
-\* get_token
-GetToken(S) ==
-    IF S.pos <= NTok THEN Ok([S EXCEPT !.pos = @ + 1, !.last = Tok(S.pos).line], S.pos)
-    ELSE Err(S, "UnexpectedEOF", S.last)
-
-\* expect_token: comments are skipped
-RECURSIVE ExpectToken(_, _)
-ExpectToken(S, ttype) ==
-    LET r == GetToken(S) IN
-    IF ~r.ok THEN r
-    ELSE IF Tok(r.v).t = "cmt" THEN ExpectToken(r.S, ttype)
-    ELSE IF Tok(r.v).t # ttype THEN Err(r.S, "UnexpectedTokenType", r.S.last)
-    ELSE r
-
-\* get_identifier
-GetIdentifier(S) ==
-    LET r == ExpectToken(S, "id") IN
-    IF ~r.ok THEN r
-    ELSE LET tk == Tok(r.v) IN
-         IF tk.a.digit \/ tk.a.long
-         THEN LET l == Log(r.S, Diag("InvalidIdentifier", r.S.last, tk.v)) IN
-              IF l.ok THEN Ok(l.S, tk.v) ELSE l
-         ELSE Ok(r.S, tk.v)
-
-\* get_string: an identifier is tolerated in place of a string (recoverable)
-GetString(S) ==
-    IF S.pos <= NTok /\ Tok(S.pos).t = "id"
-    THEN LET r == GetIdentifier(S) IN
-         IF ~r.ok THEN r
-         ELSE LET l == Log(r.S, Diag("UnexpectedTokenType", r.S.last, r.v)) IN
-              IF l.ok THEN Ok(l.S, r.v) ELSE l
-    ELSE LET r == ExpectToken(S, "str") IN
-         IF r.ok THEN Ok(r.S, Tok(r.v).v) ELSE r
-
-\* get_integer::<T> / get_float / get_double: the literal must be representable in the field
-GetNumber(S, type) ==
-    LET r == ExpectToken(S, "num") IN
-    IF ~r.ok THEN r
-    ELSE LET tk == Tok(r.v)
-             fits == IF type \in IntTypes THEN \E i \in 1..Len(tk.a.fits) : tk.a.fits[i] = type ELSE tk.a.float
-         IN IF fits THEN Ok(r.S, [txt |-> tk.v, val |-> tk.a.val]) ELSE Err(r.S, "MalformedNumber", r.S.last)
-
-(***************************************************************************)
-(* enum items (generate_enum_parser)                                       *)
-(***************************************************************************)
-ParseEnum(S, ename, ver) ==
-    LET r == GetIdentifier(S) IN
-    IF ~r.ok THEN r
-    ELSE LET items == Enum[ename]
-             idx == {i \in 1..Len(items) : items[i].item = r.v}
-         IN IF idx = {} THEN Err(r.S, "InvalidEnumValue", r.S.last)
-            ELSE LET it == items[CHOOSE i \in idx : TRUE]
-                     l1 == IF it.since # 0 /\ ver < it.since
-                           THEN Log(r.S, Diag("EnumRefTooNew", r.S.last, r.v)) ELSE Ok(r.S, TRUE)
-                 IN IF ~l1.ok THEN l1
-                    ELSE LET S2 == IF it.until # 0 /\ ver > it.until
-                                   THEN Warn(l1.S, Diag("EnumRefDeprecated", l1.S.last, r.v)) ELSE l1.S
-                         IN Ok(S2, r.v)
-
-\* one scalar item (generate_item_parser_call)
-ParseScalar(S, type, ver) ==
-    IF type = "ident" THEN GetIdentifier(S)
-    ELSE IF type = "string" THEN GetString(S)
-    ELSE IF type \in ScalarTypes THEN GetNumber(S, type)
-    ELSE ParseEnum(S, type, ver)
-
-\* fixed-size array: n items in a row
-RECURSIVE ParseArray(_, _, _, _, _)
-ParseArray(S, type, n, ver, acc) ==
-    IF n = 0 THEN Ok(S, acc)
-    ELSE LET r == ParseScalar(S, type, ver) IN
-         IF ~r.ok THEN r ELSE ParseArray(r.S, type, n - 1, ver, Append(acc, r.v))
-
-\* one item of a sequence: a single scalar, or all fields of the anonymous struct in order
-RECURSIVE ParseFields(_, _, _, _)
-ParseFields(S, fields, ver, acc) ==
-    IF fields = <<>> THEN Ok(S, acc)
-    ELSE LET r == ParseScalar(S, Head(fields).type, ver) IN
-         IF ~r.ok THEN r ELSE ParseFields(r.S, Tail(fields), ver, Append(acc, r.v))
-
-\* generate_sequence_parser: greedy; a failing item ends the sequence and rewinds the cursor
-\* (not `last`, not the diagnostics); stopwords end a sequence of identifiers
-RECURSIVE ParseSeq(_, _, _, _, _)
-ParseSeq(S, fields, stop, ver, acc) ==
-    LET r == ParseFields(S, fields, ver, <<>>) IN
-    IF ~r.ok THEN Ok([r.S EXCEPT !.pos = S.pos], acc)
-    ELSE IF Len(fields) = 1 /\ fields[1].type = "ident" /\ r.v[1] \in stop
-         THEN Ok([r.S EXCEPT !.pos = S.pos], acc)
-         ELSE ParseSeq(r.S, fields, stop, ver, Append(acc, IF Len(fields) = 1 THEN r.v[1] ELSE r.v))
-
-(***************************************************************************)
-(* handle_unknown_taggedstruct_tag                                         *)
-(***************************************************************************)
-RECURSIVE SkipUnknown(_, _, _, _, _)
-SkipUnknown(S, tag, isBlock, stopList, balance) ==
-    LET r == GetToken(S) IN
-    IF ~r.ok THEN r
-    ELSE LET tk == Tok(r.v) IN
-         IF tk.t = "begin" THEN SkipUnknown(r.S, tag, isBlock, stopList, balance + 1)
-         ELSE IF tk.t = "end"
-              THEN IF balance - 1 = -1 THEN Ok([r.S EXCEPT !.pos = @ - 1], TRUE)
-                   ELSE SkipUnknown(r.S, tag, isBlock, stopList, balance - 1)
-         ELSE IF tk.t = "id"
-              THEN IF isBlock
-                   THEN IF balance = 0
-                        THEN IF tk.v = tag THEN Ok(r.S, TRUE) ELSE Err(r.S, "IncorrectEndTag", r.S.last)
-                        ELSE SkipUnknown(r.S, tag, isBlock, stopList, balance)
-                   ELSE IF balance \in {0, 1} /\ tk.v \in stopList
-                        THEN Ok([r.S EXCEPT !.pos = @ - (IF balance = 1 THEN 2 ELSE 1)], TRUE)
-                        ELSE SkipUnknown(r.S, tag, isBlock, stopList, balance)
-         ELSE IF isBlock /\ balance = 0 THEN Err(r.S, "IncorrectEndTag", r.S.last)
-              ELSE SkipUnknown(r.S, tag, isBlock, stopList, balance)
-
-HandleUnknown(S, ctx, tag, isBlock, stopList) ==
-    LET l == Log(S, Diag("UnknownSubBlock", S.last, tag)) IN
-    IF ~l.ok THEN l
-    ELSE LET g == GetToken(l.S) IN                      \* "make sure there actually is a next token"
-         IF ~g.ok THEN g
-         ELSE SkipUnknown([g.S EXCEPT !.pos = @ - 1], tag, isBlock, stopList, IF isBlock THEN 1 ELSE 0)
+EXTENDS A2ml
 
 (***************************************************************************)
 (* blocks and keywords (generate_block_parser_generic, taggeditem parser)  *)
@@ -171,40 +14,9 @@ KidIndex(kids, tag) == {i \in 1..Len(kids) : kids[i].tag = tag}
 KidTags(kids) == {kids[i].tag : i \in 1..Len(kids)}
 KeywordKidTags(kids) == {kids[i].tag : i \in {j \in 1..Len(kids) : Elem[kids[j].tag].form = "keyword"}}
 
-\* get_next_tag_or_comment: v = [k |-> "cmt"] | [k |-> "tag", tag, isBlock, line] | [k |-> "none"]
-NextTagOrComment(S) ==
-    IF S.pos <= NTok /\ Tok(S.pos).t = "cmt" THEN Ok([S EXCEPT !.pos = @ + 1], [k |-> "cmt"])
-    ELSE IF S.pos <= NTok /\ Tok(S.pos).t = "begin"
-         THEN LET g == GetToken(S)
-                  r == ExpectToken(g.S, "id")
-              IN IF r.ok THEN Ok(r.S, [k |-> "tag", tag |-> Tok(r.v).v, isBlock |-> TRUE, line |-> Tok(r.v).line])
-                 ELSE [r EXCEPT !.S.pos = S.pos]
-         ELSE LET r == ExpectToken(S, "id") IN
-              IF r.ok THEN Ok(r.S, [k |-> "tag", tag |-> Tok(r.v).v, isBlock |-> FALSE, line |-> Tok(r.v).line])
-              ELSE Ok([r.S EXCEPT !.pos = S.pos], [k |-> "none"])
-
-\* IF_DATA: the content is not interpreted at this level: balanced tokens up to the closing /end
-RECURSIVE SkipBalanced(_, _)
-SkipBalanced(S, balance) ==
-    IF S.pos > NTok THEN Err(S, "UnexpectedEOF", S.last)
-    ELSE LET tk == Tok(S.pos) IN
-         IF tk.t = "end" /\ balance = 0 THEN Ok(S, TRUE)
-         ELSE LET g == GetToken(S) IN
-              SkipBalanced(g.S, IF tk.t = "begin" THEN balance + 1 ELSE IF tk.t = "end" THEN balance - 1 ELSE balance)
-
-Node(tag, params, kids) == [tag |-> tag, params |-> params, kids |-> kids]
-
 RECURSIVE ParseElem(_, _, _, _, _)
 RECURSIVE ParseParams(_, _, _, _, _)
 RECURSIVE ParseKids(_, _, _, _, _)
-
-\* `/end TAG` of a block; a wrong tag is recoverable
-CloseBlock(S, tag) ==
-    LET e == ExpectToken(S, "end") IN
-    IF ~e.ok THEN e
-    ELSE LET i == GetIdentifier(e.S) IN
-         IF ~i.ok THEN i
-         ELSE IF i.v # tag THEN Log(i.S, Diag("IncorrectEndTag", i.S.last, i.v)) ELSE Ok(i.S, TRUE)
 
 ParseParams(S, params, kids, ver, acc) ==
     IF params = <<>> THEN Ok(S, acc)
@@ -265,10 +77,9 @@ CheckRequired(S, kids, got, i) ==
 ParseElem(S, ctx, isBlock, ver, depth) ==
     LET tag == ctx.tag  el == Elem[tag] IN
     IF tag = "IF_DATA"
-    THEN LET b == SkipBalanced(S, 0) IN
-         IF ~b.ok THEN b
-         ELSE LET c == CloseBlock(b.S, tag) IN
-              IF ~c.ok THEN c ELSE Ok(c.S, Node(tag, <<[raw |-> SubSeq(Doc, S.pos, b.S.pos - 1)]>>, <<>>))
+    THEN \* the content is interpreted by the definitions in force (A2ml.tla); params = <<valid, value tree>>
+         LET r == IfDataAt(S) IN
+         IF ~r.ok THEN r ELSE Ok(r.S, Node(tag, <<r.valid, r.v>>, <<>>))
     ELSE IF tag = "A2ML"
     THEN LET t == ExpectToken(S, "str") IN
          IF ~t.ok THEN t
@@ -278,7 +89,8 @@ ParseElem(S, ctx, isBlock, ver, depth) ==
                   l == IF bad THEN Log(t.S, Diag("A2mlError", t.S.last, "")) ELSE Ok(t.S, TRUE)
               IN IF ~l.ok THEN l
                  ELSE LET c == CloseBlock(l.S, tag) IN
-                      IF ~c.ok THEN c ELSE Ok(c.S, Node(tag, <<Tok(t.v).v>>, <<>>))
+                      \* a usable definition is in force from here on
+                      IF ~c.ok THEN c ELSE Ok([c.S EXCEPT !.a2ml = @ \/ ~bad], Node(tag, <<Tok(t.v).v>>, <<>>))
     ELSE LET p == ParseParams(S, el.params, el.kids, ver, <<>>) IN
          IF ~p.ok THEN p
          ELSE LET k == IF el.kids = <<>> THEN Ok(p.S, <<>>) ELSE ParseKids(p.S, ctx, el.form = "block", ver, <<>>) IN
@@ -316,7 +128,7 @@ ParseVersion(S0) ==
 Run ==
     IF NTok = 0 THEN [ok |-> FALSE, e |-> [c |-> "EmptyFileError", line |-> 0], diags |-> <<>>]
     ELSE
-    LET S0 == [pos |-> 1, last |-> 0, diags |-> <<>>]
+    LET S0 == [pos |-> 1, last |-> 0, diags |-> <<>>, a2ml |-> FALSE]
         v == ParseVersion(S0)
     IN IF ~v.ok THEN [ok |-> FALSE, e |-> v.e, diags |-> v.S.diags]
        ELSE LET f == ParseElem(v.S, [tag |-> "A2L_FILE", line |-> Tok(1).line], FALSE, v.v, 0) IN
@@ -333,7 +145,7 @@ Run ==
 (***************************************************************************)
 RunFragment ==
     IF NTok = 0 THEN [ok |-> FALSE, e |-> [c |-> "UnexpectedEOF", line |-> 0], diags |-> <<>>]
-    ELSE LET S0 == [pos |-> 1, last |-> 0, diags |-> <<>>]
+    ELSE LET S0 == [pos |-> 1, last |-> 0, diags |-> <<>>, a2ml |-> FALSE]
              f == ParseElem(S0, [tag |-> "MODULE", line |-> Tok(1).line], TRUE, 171, 0)
          IN IF ~f.ok THEN [ok |-> FALSE, e |-> f.e, diags |-> f.S.diags]
             ELSE [ok |-> TRUE, diags |-> f.S.diags, tree |-> f.v, ver |-> 171]
